@@ -2,6 +2,7 @@ import ALV.Common.Json
 import ALV.Model.C17
 import ALV.Model.C17Fine
 import ALV.Model.C17Rec
+import ALV.Model.C17Mix
 import ALV.Spec.C17
 namespace ALV.Driver.C17
 open ALV ALV.J ALV.C17
@@ -229,7 +230,10 @@ def revJson : C17Rec.REv → Json
   | .closeOk => Json.arr [Json.str "close", Json.str "ok"]
 
 /-- does the command finish (close the device stream of) a recording stream that is NOT the oldest
-    one still in `_recordings`?  (`list.remove` then has to compare two `RecStream`s: finding D22) -/
+    one still in `_recordings`?  (`list.remove` would then have to compare two `RecStream`s with `==`:
+    finding D26, repaired in /repo by c60d4c5 — `recording_finished` removes by identity, which is what
+    `Model/C17Rec.lean` (`List.erase` on indices) does.  The flag only NAMES a regression of that
+    repair in the signature of the violation; it excuses nothing: the tie compares every call.) -/
 def finishesLater (s : C17Rec.RState) (c : C17Rec.RCmd) : Bool :=
   let s' := C17Rec.stepCmd s c
   match c with
@@ -258,8 +262,148 @@ def handleRec (j : Json) : Except String Json := do
         | some r => r.out ++ r.buf == C17Rec.devData i r.cs r.reads && r.closes == (if r.done then 1 else 0)
         | none => true))])]
 
+/-! ### the mixed system (`entry = "mix"`): recordings, failing `pa.open`, raising `terminate` in the
+same history as the player threads (`ALV.Model.C17Mix`) -/
+
+/-- thread-object / device-stream index of player `i` (they differ from `i` once a `pa.open` has failed
+    or a recording stream was opened) -/
+def tixOf (x : XState) (i : Nat) : Nat := x.tix.getD i i
+def sixOf (x : XState) (i : Nat) : Nat := x.six.getD i i
+
+def reIdx (f : Nat → Nat) : MPc → MPc
+  | .pGoSet i => .pGoSet (f i) | .pOpen i => .pOpen (f i) | .pStart i => .pStart (f i)
+  | .cAcq k i => .cAcq k (f i) | .cEvt k i => .cEvt k (f i) | .cRel k i => .cRel k (f i)
+  | .jJoin i => .jJoin (f i) | .kSAcq i => .kSAcq (f i) | .kSEvt i => .kSEvt (f i)
+  | .kSRel i => .kSRel (f i) | .kJoin i => .kJoin (f i)
+  | pc => pc
+
+def playerLabelX (t s : Nat) : PPc → Option String
+  | .write => some s!"st{s}.write"
+  | .stopStream => some s!"st{s}.stop"
+  | .startStream => some s!"st{s}.start"
+  | .closeStream => some s!"st{s}.close"
+  | pc => playerLabel t pc
+
+def mainLabelX (xc : XCfg) (x : XState) : Option String :=
+  match x.xpc with
+  | .fGoSet => some s!"go{x.base.players.length + x.ghosts}.set"
+  | .fOpen => some "pa.open"
+  | .fRel => some "mlock.rel"
+  | .fRaiseRel => some "mlock.rel"
+  | .idle =>
+    let baseLabel :=
+      match (if x.base.mpc == .kTerm then lastActive x.recs else none) with
+      | some k => some s!"st{(x.recs[k]?.map (·.six)).getD 0}.close"
+      | none => mainLabel xc.cfg (reIdx (tixOf x) x.base.mpc)
+    match x.todo with
+    | (t, op) :: _ =>
+      if due x.base t then
+        match op with
+        | .record _ => some "pa.open"
+        | .playFail => some "mlock.acq"
+      else baseLabel
+    | [] => baseLabel
+
+def pendStrX (xc : XCfg) (x : XState) : String :=
+  let m := match mainLabelX xc x with
+    | some l => [s!"0:{l}:{if enabledX xc x .main then 1 else 0}"]
+    | none => []
+  let ps := (List.range x.base.players.length).filterMap fun i =>
+    match x.base.players[i]? with
+    | some p => (playerLabelX (tixOf x i) (sixOf x i) p.pc).map fun l =>
+        s!"{tixOf x i + 1}:{l}:{if enabledX xc x (.player i) then 1 else 0}"
+    | none => none
+  -- the scheduler lists the threads by thread-object index
+  ",".intercalate (m ++ ps)
+
+/-- schedule number → thread: 0 = control script, n+1 = the player whose thread object has index n -/
+def numTidX (x : XState) (n : Nat) : Tid :=
+  if n = 0 then .main
+  else match (List.range x.base.players.length).find? (fun i => tixOf x i == n - 1) with
+    | some i => .player i
+    | none => .player x.base.players.length      -- nobody: not enabled
+
+def replayX (xc : XCfg) : XState → List Nat → List String → XState × List String × Option Nat
+  | x, [], acc => (x, acc.reverse, none)
+  | x, c :: cs, acc =>
+    let rec_ := s!"{c}|{pendStrX xc x}"
+    match stepX xc x (numTidX x c) with
+    | some x' => replayX xc x' cs (rec_ :: acc)
+    | none => (x, (rec_ :: acc).reverse, some acc.length)
+
+def parseXCmd (dcs : Nat) (j : Json) : Except String XCmd := do
+  match (← getArr j) with
+  | [Json.str "record", c] =>
+    let c ← getNat c
+    if c = 0 then throw "chunk size must be positive"
+    pure (.ext (.record c))
+  | [Json.str "playfail"] => pure (.ext .playFail)
+  | _ => pure (.base (← parseCmd dcs j))
+
+def xevJson : XEv → Json
+  | .recordOk => Json.arr [Json.str "record", Json.str "ok"]
+  | .recordRefused => Json.arr [Json.str "record", Json.str "IOError"]
+  | .playOpenError => Json.arr [Json.str "play", Json.str "OTHER:OSError"]
+  | .playThreadError => Json.arr [Json.str "play", Json.str "RuntimeError"]
+
+/-- the log of the mixed script: the extra call with tag `t` comes right before the coarse call that
+    has `t - 1` coarse calls after it; the `close` that terminated a backend whose `terminate` raises
+    raised that error -/
+def mergedLog (raised : Bool) (nBase : Nat) (x : XState) : List Json :=
+  let ext (j : Nat) : List Json := (x.xlog.filter fun (t, _) => nBase - t == j).map fun (_, e) => xevJson e
+  let rec go (j : Nat) (l : List Ev) (r : Bool) : List Json :=
+    match l with
+    | [] => (x.xlog.filter fun (t, _) => decide (nBase - t ≥ j)).map fun (_, e) => xevJson e
+    | e :: rest =>
+      match e, r with
+      | .closeOk _ _, true =>
+        ext j ++ [Json.arr [Json.str "close", Json.str "OTHER:OSError"]] ++ go (j + 1) rest false
+      | _, _ => ext j ++ [evJson e] ++ go (j + 1) rest r
+  go 0 x.base.log raised
+
+def handleMix (j : Json) : Except String Json := do
+  let wait ← getBool (← field j "wait")
+  let fixed ← getBool (← field j "fixed")
+  let cs ← getNat (← field j "cs")
+  if cs = 0 then throw "cs must be positive"
+  let script ← getList (parseXCmd cs) (← field j "script")
+  let sched ← getList getNat (← field j "schedule")
+  let termFails ← getBool (← field j "termFails")
+  let fails ← match optField j "fails" with
+    | some f => getList getBool f
+    | none => pure []
+  let xc : XCfg := { cfg := { wait := wait, fixed := fixed, fails := fails }, termFails := termFails }
+  let (x, steps, bad) := replayX xc (initX script) sched []
+  let s := x.base
+  let outcome :=
+    match bad with
+    | some k => s!"not-enabled@{k}"
+    | none => if allDone s && scriptDone x then "done" else if terminalX xc x then "deadlock" else "unfinished"
+  let streams := (List.range s.players.length).filterMap fun i => (s.players[i]?).map fun p => Json.mkObj [
+    ("written", arr (arr intToJson) p.written), ("state", Json.str (sstStr p.sst)),
+    ("alive", Json.bool (p.pc != .done && p.pc != .new)), ("halting", Json.bool p.halting),
+    ("go", Json.bool p.go), ("six", natToJson (sixOf x i)), ("opened", Json.bool (decide (i < x.six.length)))]
+  let recs := x.recs.map fun r => Json.mkObj [("six", natToJson r.six), ("cs", natToJson r.cs),
+    ("closes", natToJson r.closes)]
+  let audios := (projScript script).filterMap fun c => match c with | .play a c => some (a, c) | _ => none
+  pure <| Json.mkObj [
+    ("model", Json.mkObj [
+      ("steps", arr Json.str steps), ("final", Json.str (pendStrX xc x)),
+      ("outcome", Json.str outcome),
+      ("log", Json.arr (mergedLog (closeRaised xc x) (projScript script).length x)),
+      ("streams", Json.arr streams), ("recs", Json.arr recs),
+      ("terminates", natToJson s.terminated), ("finished", Json.bool s.finished),
+      ("threads", nats s.threads), ("perr", Json.bool s.perr), ("ghosts", natToJson x.ghosts),
+      ("recordings", natToJson (x.recs.countP fun r => r.closes == 0)),
+      ("mlock_free", Json.bool (s.mlock.isNone && !x.shadow)),
+      ("closedAfter", Json.bool (closedAfterX x)), ("noneAlive", Json.bool (noneAlive s))]),
+    ("spec", Json.mkObj [
+      ("chunks", arr (fun (a : List Int × Nat) => arr (arr intToJson) (chunksSpec a.2 a.1)) audios),
+      ("opens", Json.arr [])])]
+
 def handle (entry : String) (j : Json) : Except String Json := do
   match entry with
+  | "mix" => handleMix j
   | "fine" => handleFine j
   | "rec" => handleRec j
   | "sched" =>
